@@ -33,7 +33,11 @@ class Case:
     """name, factory() -> real module, input shape (without batch), optional context shape, symbolic buffers,
     assumptions(sym_params dict, x Sym) -> [Bool terms]"""
 
-    def __init__(self, name, factory, in_shape, ctx_shape=None, buffers=(), positive_buffers=(), assume=None, post=None, eval_mode=True, tier="quick", note="", domain=None, classes=(), rt_box=None, rt_assume=None):
+    def __init__(self, name, factory, in_shape, ctx_shape=None, buffers=(), positive_buffers=(), assume=None, post=None, eval_mode=True, tier="quick", note="", domain=None, classes=(), rt_box=None, rt_assume=None, prelude=None, real_dtype=None):
+        self.real_dtype = real_dtype  # dtype of the real replay / validation module (default float64)
+        # prelude(m, x, ctx): calls made on the freshly built module before the call under test (a history: e.g. an
+        # inverse pass that fills the weight cache first); run on the symbolic and on the real module alike
+        self.prelude = prelude
         # rt_assume: {(order, "start"): fn(x Sym) -> [Bool terms]} extra assumptions on the round-trip start value
         self.rt_assume = rt_assume or {}
         # rt_box: {(order, stage): (lo, hi)} closed box assumed for the round-trip start / middle values
@@ -57,10 +61,18 @@ class Case:
         asm = list(self.assume(params, x)) if self.assume else []
         if self.domain:
             asm += list(self.domain(x))
+        if self.prelude:
+            from symtorch import explore as _ex
+
+            for a in asm:
+                _ex.assume(a)
+            with stubs.torch_patches():
+                self.prelude(m, x, ctx)
         return m, params, x, ctx, asm
 
     def build_real(self, leaves, n=1, dtype=torch.float64, xname="x"):
         torch.manual_seed(0)
+        dtype = self.real_dtype or dtype
 
         def fac():
             m = self.factory()
@@ -77,6 +89,9 @@ class Case:
         if self.ctx_shape is not None:
             ctx = torch.zeros((n,) + tuple(self.ctx_shape), dtype=dtype)
             TK._fill(ctx, "ctx", leaves)
+        if self.prelude:
+            with torch.no_grad():
+                self.prelude(m, x, ctx)
         return m, x, ctx
 
 
@@ -205,6 +220,9 @@ def all_cases():
     A(Case("BatchNorm/eval", lambda: NM.BatchNorm(2), (2,), buffers=("running_mean", "running_var"), positive_buffers=("running_var",)))
     A(Case("ActNorm/2d", lambda: NM.ActNorm(2), (2,), post=_init_actnorm))
     A(Case("ActNorm/image", lambda: NM.ActNorm(2), (2, 1, 2), post=_init_actnorm))
+    # never initialised, in evaluation mode: must behave as the plain affine map of its current parameters (the
+    # data-dependent initialisation belongs to training mode only)
+    A(Case("ActNorm/uninitialised,eval", lambda: NM.ActNorm(2), (2,)))
     # ---- permutations / reshape ----
     A(Case("Permutation/[1,0]", lambda: PM.Permutation(torch.tensor([1, 0])), (2,)))
     A(Case("Permutation/[2,0,1]", lambda: PM.Permutation(torch.tensor([2, 0, 1])), (3,)))
@@ -219,6 +237,11 @@ def all_cases():
         A(Case("LULinear/D=%d" % D, (lambda D=D: LU.LULinear(D)), (D,), tier=t))
         A(Case("NaiveLinear/D=%d" % D, (lambda D=D: LN.NaiveLinear(D, orthogonal_initialization=False)), (D,), tier=t, assume=_naive_nonsingular))
     A(Case("LULinear/D=2,cache", lambda: LU.LULinear(2, using_cache=True), (2,)))
+    # evaluation mode with the weight cache on, after an inverse pass has filled the cache (the combined accessors
+    # weight_inverse_and_logabsdet / weight_and_logabsdet and the shared cache slots are on the path)
+    A(Case("NaiveLinear/D=2,cached,inverse-first", lambda: LN.NaiveLinear(2, orthogonal_initialization=False, using_cache=True), (2,), assume=_naive_nonsingular, prelude=lambda m, x, ctx: m.inverse(x), real_dtype=torch.float32,
+           note="real replay in float32: NaiveLinear's combined accessor builds a float32 identity internally"))
+    A(Case("LULinear/D=2,cached,inverse-first", lambda: LU.LULinear(2, using_cache=True), (2,), prelude=lambda m, x, ctx: m.inverse(x)))
     A(Case("QRLinear/D=2,H=1", lambda: QR.QRLinear(2, num_householder=1), (2,), assume=_householder_nonzero))
     A(Case("QRLinear/D=2,H=2", lambda: QR.QRLinear(2, num_householder=2), (2,), assume=_householder_nonzero))
     A(Case("QRLinear/D=3,H=2", lambda: QR.QRLinear(3, num_householder=2), (3,), tier="thorough", assume=_householder_nonzero))
@@ -255,10 +278,14 @@ def all_cases():
     return cs
 
 
-def cases_for(tier):
+def cases_for(tier, with_history=False):
+    """with_history: include the cases that run a prelude (a call history) on the module first - meaningful for the
+    Jacobian / round-trip checks (C01, C02, C03) only."""
     cs = all_cases()
     if tier == "quick":
         cs = [c for c in cs if c.tier == "quick"]
+    if not with_history:
+        cs = [c for c in cs if not c.prelude]
     return cs
 
 
